@@ -127,10 +127,19 @@ type RuleASTNode struct {
 	Source RuleASTNodeSource
 }
 
+// NewRuleASTNodes creates an ordered map with given entries. The arguments are
+// copied: the map never shares memory with its creator or with other maps
+// created from the same arguments.
 func NewRuleASTNodes(data map[string]RuleASTNode, order []string) *RuleASTNodes {
+	d := make(map[string]RuleASTNode, len(data))
+	for k, v := range data {
+		d[k] = v
+	}
+	o := make([]string, len(order))
+	copy(o, order)
 	return &RuleASTNodes{
-		data:  data,
-		order: order,
+		data:  d,
+		order: o,
 	}
 }
 
